@@ -30,10 +30,10 @@ repo_log = "\n".join(l for l in sh("git -C /repo log --format='%h %s' | head -40
 SPEC = {"C01": "Ops.tla, Decls.tla, Lits.tla", "C02": "Ops.tla, Decls.tla, Lits.tla, Flow.tla, Headers.tla", "C03": "Ops.tla, Decls.tla, Lits.tla, Select.tla", "C04": "Ops.tla, Decls.tla",
         "C05": "GoTypes.tla, Grid.tla", "C06": "Overload.tla", "C07": "Infer.tla", "C08": "Select.tla", "C09": "Imports.tla", "C10": "Flow.tla",
         "C11": "Lower.tla", "C12": "Print.tla, Comments.tla, Flow.tla, Headers.tla", "C13": "TypeSyntax.tla (GoTypes.tla)", "C14": "Zero.tla (GoTypes.tla)",
-        "C15": "Determinism.tla", "C16": "Builder.tla", "C17": "Total.tla", "C18": "Shared.tla", "C19": "TypeMap.tla, TypeMapTrace.tla", "C20": "Cache.tla"}
+        "C15": "Determinism.tla", "C16": "Builder.tla, Blocks.tla, BlockTrace.tla", "C17": "Total.tla", "C18": "Shared.tla", "C19": "TypeMap.tla, TypeMapTrace.tla", "C20": "Cache.tla"}
 DRIVER = {"C01": "c01_04.go, expr.go, decls.go, lits.go", "C02": "c01_04.go, c02_flow.go, c02_headers.go, astcanon.go", "C03": "c01_04.go, c08.go", "C04": "c01_04.go",
           "C05": "c05.go, gotypes.go", "C06": "c06.go", "C07": "c07.go", "C08": "c08.go", "C09": "c09.go", "C10": "c10.go", "C11": "c11.go, c11_exec.go",
-          "C12": "c12.go, c12_comments.go", "C13": "c13.go", "C14": "c14.go", "C15": "c15.go", "C16": "c16.go", "C17": "c17.go", "C18": "c18.go",
+          "C12": "c12.go, c12_comments.go", "C13": "c13.go", "C14": "c14.go", "C15": "c15.go", "C16": "c16.go, c16_trace.go", "C17": "c17.go", "C18": "c18.go",
           "C19": "c19.go", "C20": "c20.go, cmd/stubgo/stubgo.c"}
 
 # hand-written remarks per property: decisions, false alarms corrected, what TLC itself checks
@@ -53,7 +53,7 @@ REMARK = {
 "C13": """TLC checks `Parse(Tokens(t)) = t` over the bounded type grammar; `NoParens = TRUE` reproduces the `chan (<-chan T)` defect (fixed, 7fa8cc5). Each term is declared through the builder in every syntactic position across two files, written, re-checked, and the type read back is compared with the original.""",
 "C14": """Zero.tla states the two demands on a synthesised zero value (accepted where a T is expected; static type exactly T in an inferred position), proves satisfiability for every type of the universe and evaluates the form the implementation chooses (`ImplForm`), thereby *predicting* the deviation class `UntypedZeroForm` (KF-C14-1); the named-struct/array case was fixed (da1024a). Users replayed: `ZeroLit`, `T()`, `ReturnErr`, `ReturnErr(outer)`, omitted optional arguments, each also after operand-rewriting pre-steps (the cached zero element must not be mutated).""",
 "C15": """Determinism.tla is a self-composition: two builds of the same program with free iteration-order choices for every map-backed collection; `Sorted[c] = FALSE` must produce a counterexample. Replay: K = 25 in-process builds plus builds in child processes (map seeds differ per process), files rendered through `ForEachFile`.""",
-"C16": """History entries `<<op, arg, len, scope, sdepth, fn, labels, invb>>` are compared after *every* step with the real builder's projected state (stack length, scope identity and depth, current function, visible labels). `Leak = TRUE` is the sabotage guard. The former known finding KF-C16-1 (inline-closure base) disappeared with fix 4acf71e; the model had always described the sane behaviour.""",
+"C16": """History entries `<<op, arg, len, scope, sdepth, fn, labels, invb>>` are compared after *every* step with the real builder's projected state (stack length, scope identity and depth, current function, visible labels). `Leak = TRUE` is the sabotage guard. The former known finding KF-C16-1 (inline-closure base) disappeared with fix 4acf71e; the model had always described the sane behaviour. **Trace validation**: `Blocks.tla` / `BlockTrace.tla` check executions of the repository's *own* tests (recorded through the `verifTrace` hook at `startBlockStmt` / `endBlockStmt`) against the frame discipline; the first version rejected a white-box test that opens an `if` outside any function (the scope depth outside the outermost construct is not recorded: relaxed for the outermost frame only) and tests of error paths, which misuse the protocol on purpose (skipped by name).""",
 "C17": """Total.tla contributes the cross product (operation x operand classes x configuration); the only prediction is Outcome in {ok, reported error}. Every point runs in an isolated worker (6 GB address space, 128 MB stack, 20 s deadline); a dying point is confirmed alone; after 12 confirmed deaths the run stops early (the verdict is already FAIL). Operand classes include huge constants (2^40 .. 10^10000), types, references, multi-value and no-value calls and recursive types (A{*B}/B{*A}, type L []L).""",
 "C18": """Shared.tla lists the package-level singletons (`VerifSharedGlobals`) each feature reads or writes; `Mutating = TRUE` is the sabotage guard. Replay: deep snapshots of the singletons around sequential builds; tuples of programs built in parallel must equal their sequential builds; the same tuples run under the race detector (`.bin/vcheck-race`). Every builder has its own big-number types; features `btiadd` / `btiuse` customise and probe the per-package builtin-type table.""",
 "C19": """TypeMap.tla refines a map over identity classes (TLC, 236 states; sabotage constants `StopAtFirstHole`, `IgnoreTombstone`); traces recorded from the real `typeutil.Map` (hash forced to collide / to one bucket) are validated by TypeMapTrace.tla; a pool of identical-but-distinct type pairs checks `hash identity`.""",
@@ -71,7 +71,7 @@ kept as `docs/DESIGN-round0.md`; where the two differ, this one is right.
 
 **Status.** All 20 properties (C01-C20) are claimed; `not_applicable` is empty. Every property has
 a TLA+ specification checked by TLC, a binding to the real code (replay of TLC-generated
-behaviours, and for C19 also validation of recorded traces), a quick and a thorough tier, evidence,
+behaviours; for C19 and C16 also TLC validation of traces recorded from the real code), a quick and a thorough tier, evidence,
 and at least two seeded property-breaking changes produced by independent sub-agents - all of them
 are caught (§9 says which were first missed and what was strengthened). While building, %d genuine
 defects of the pinned tree were repaired by small `fix:` commits in `/repo` and %d root causes are
@@ -363,10 +363,12 @@ that does not finish is an infrastructure failure, never a pass).
 
 ## 12. Hooks in /repo
 
-One hook commit (`verif:`), file `verif_export.go` under `//go:build verif`, add-only:
-`VerifFormatNode` (the forked formatter cannot be imported from outside the module) and
-`VerifSharedGlobals` (the package-level singletons, for C18's snapshots). With the tag off the file is
-not compiled and the suite passes. MANIFEST.hooks records guard, enable and baseline-off commands.
+Two hook commits (`verif:`), add-only. `verif_export.go` (`//go:build verif`): `VerifFormatNode` (the
+forked formatter cannot be imported from outside the module) and `VerifSharedGlobals` (the package-level
+singletons, for C18's snapshots). `verif_trace.go` / `verif_trace_off.go`: `verifTrace`, called by three
+one-liners in `startBlockStmt` / `endBlockStmt`; without the tag it is an empty function, with the tag it
+appends one JSON line per block event to the file named by `VERIF_TRACE_FILE` (C16 trace validation). With
+the tag off the suite passes. MANIFEST.hooks records guard, enable and baseline-off commands.
 
 ## Appendix: practical notes
 
